@@ -59,6 +59,7 @@ type Run struct {
 	switches int64
 	budget   int64
 	multi    atomic.Bool
+	coarse   atomic.Bool // park only at operation boundaries (ResetOpSteps), never inside library code
 
 	// recorded by the scheduler goroutine only
 	Executed []SchedEntry
@@ -140,7 +141,7 @@ func hook(site int) {
 		raceEnable()
 		panic(StepBudgetExceeded{Steps: n})
 	}
-	if r.multi.Load() && t.id >= 0 {
+	if r.multi.Load() && t.id >= 0 && !r.coarse.Load() {
 		if r.quantum.Add(-1) <= 0 {
 			t.lastSite.Store(int64(site))
 			r.parked <- t.id
@@ -180,12 +181,29 @@ func (r *Run) Solo(f func()) {
 }
 
 // ResetOpSteps starts a new step budget for the operation the calling task
-// is about to perform.
+// is about to perform. In coarse mode it is also the only place where a task
+// can be parked: between two API calls no lock of the code under test is held,
+// so a change that blocks for real inside the library cannot wedge the run.
 func (r *Run) ResetOpSteps() {
 	raceDisable()
 	if t := r.curTask.Load(); t != nil {
 		t.opSteps.Store(0)
+		if r.coarse.Load() && r.multi.Load() && t.id >= 0 {
+			if r.quantum.Add(-1) <= 0 {
+				t.lastSite.Store(-3)
+				r.parked <- t.id
+				<-t.resume
+			}
+		}
 	}
+	raceEnable()
+}
+
+// SetCoarse switches pre-emption to operation boundaries only; quanta then
+// count operations, not yield steps.
+func (r *Run) SetCoarse(on bool) {
+	raceDisable()
+	r.coarse.Store(on)
 	raceEnable()
 }
 
